@@ -317,6 +317,34 @@ fn batch_starts(log: &[(usize, usize)]) -> String {
     parts.join(",")
 }
 
+/// Generated source segment, described arithmetically so that `I` lines stay compact; the OCaml
+/// driver implements the same function (ocaml/eng_eager.ml gen_seg).  `from` = index of the first
+/// generated element, `prev` = last element already in the source (0 if none).
+///   r:a:b:c  pseudo-random, value = lcg % b + c                    (a = seed)
+///   n:a:b:_  non-decreasing: prev + lcg % b
+///   q:a:b:_  monotone window starts: min(i, max(prev, ((i - a) / b) * b))   (a = lag, b = stair step)
+///   k:a:b:c  non-decreasing keys: min(prev + lcg % b, c)
+///   f:a:b:c  first indexes: c, c + n0, c + n0 + n1, ... where n_k = lcg % b  (the counts of `r:a:b:0`)
+pub fn gen_seg(kind: &str, a: u64, b: u64, c: u64, from: usize, prev: u64, n: usize) -> Vec<u64> {
+    let mut x: u64 = (a * 7919 + (from as u64) * 104729 + 12345) & 0x7fff_ffff;
+    let mut next = move || { x = (x * 1103515245 + 12345) & 0x7fff_ffff; x >> 8 };
+    let mut out = Vec::with_capacity(n);
+    let mut p = prev;
+    match kind {
+        "r" => for _ in 0..n { out.push(next() % b + c) },
+        "n" => for _ in 0..n { p += next() % b; out.push(p) },
+        "q" => for i in from..from + n {
+            let t = ((i as u64).saturating_sub(a) / b) * b;
+            p = (i as u64).min(p.max(t));
+            out.push(p)
+        },
+        "k" => for _ in 0..n { p = (p + next() % b).min(c); out.push(p) },
+        "f" => { p = c; for _ in 0..n { out.push(p); p += next() % b } },
+        _ => panic!("segment kind {kind}"),
+    }
+    out
+}
+
 /// From-scratch reference of the F7 methods whose output index space differs from the index space
 /// of (some of) their sources; used only to decide "max_from <= first changed index" semantically:
 /// the first output index at which the from-scratch results over the previous and the current
@@ -373,6 +401,36 @@ fn fpi_valid(other: &[u64], out: &[u64], pending_lo: usize, mf: usize) -> bool {
     skip <= pending_lo && boundary && (pending_lo == usize::MAX || skip < other.len())
 }
 
+/// The documented meaning of the windowed / cursor-based methods, evaluated naively (no cursor, no
+/// running state, no chunking): a third, independent from-scratch evaluation.  It catches a defect
+/// that makes the incremental run and the one-shot run of the real method wrong in the same way
+/// (e.g. a cursor that over-reads across a 4096-element chunk boundary).  None = not defined here.
+fn definition(m: &str, w: usize, s: &[Vec<u64>], us: &[Vec<u64>]) -> Option<Vec<u64>> {
+    if !["cumulative", "rolling_sum", "rolling_max_fs", "rolling_min_fs", "lookback", "sum", "max", "min", "change", "rolling_count"].contains(&m) {
+        return None;
+    }
+    let v = s.first()?;
+    let n = match m { "rolling_sum" | "rolling_max_fs" | "rolling_min_fs" | "lookback" => v.len().min(us[0].len()), _ => v.len() };
+    let win = |i: usize, w: usize| -> std::ops::RangeInclusive<usize> { (i + 1).saturating_sub(w.max(1))..=i };
+    let mut out = Vec::with_capacity(n);
+    for i in 0..n {
+        out.push(match m {
+            "cumulative" => v[..=i].iter().sum(),
+            "rolling_sum" => { let a = us[0][i] as usize; if a > i { return None } v[a..=i].iter().sum() }
+            "rolling_max_fs" => { let a = us[0][i] as usize; if a > i { return None } *v[a..=i].iter().max().unwrap() }
+            "rolling_min_fs" => { let a = us[0][i] as usize; if a > i { return None } *v[a..=i].iter().min().unwrap() }
+            "lookback" => { let a = us[0][i] as usize; if a >= v.len() { return None } v[a] }
+            "sum" => { if w == 0 { return None } v[win(i, w)].iter().sum() }
+            "max" => *v[win(i, w)].iter().max().unwrap(),
+            "min" => *v[win(i, w)].iter().min().unwrap(),
+            "change" => if i < w { 0 } else { v[i].checked_sub(v[i - w])? },
+            "rolling_count" => { if w == 0 { return None } v[win(i, w)].iter().filter(|x| **x % 2 == 0).count() as u64 }
+            _ => return None,
+        });
+    }
+    Some(out)
+}
+
 fn first_diff(a: &[u64], b: &[u64]) -> usize {
     let n = a.len().min(b.len());
     match (0..n).find(|&i| a[i] != b[i]) {
@@ -419,12 +477,17 @@ fn exec_case<F: Fmt>(id: &str, m: &MDef, own0: u32, w: usize, ops: &[&str], full
         }
         let (k, rest) = op.split_at(1);
         match k {
-            "A" | "T" | "V" => {
+            "A" | "T" | "V" | "G" => {
                 let (j, arg) = rest.split_once(':').unwrap();
                 let j: usize = j.parse().unwrap();
                 match k {
-                    "A" => {
-                        let vals: Vec<u64> = if arg.is_empty() { vec![] } else { arg.split(',').map(|x| x.parse().unwrap()).collect() };
+                    "A" | "G" => {
+                        let vals: Vec<u64> = if k == "G" {
+                            let f: Vec<&str> = arg.split(':').collect();
+                            let (from, prev) = if j < m.n64 { (s[j].len(), s[j].collect_last().unwrap_or(0)) }
+                                               else { (us[j - m.n64].len(), us[j - m.n64].collect_last().unwrap_or(0) as u64) };
+                            gen_seg(f[1], f[2].parse().unwrap(), f[3].parse().unwrap(), f[4].parse().unwrap(), from, prev, f[0].parse().unwrap())
+                        } else if arg.is_empty() { vec![] } else { arg.split(',').map(|x| x.parse().unwrap()).collect() };
                         if j < m.n64 {
                             pending_lo = pending_lo.min(s[j].len());
                             for v in vals { s[j].push(v); }
@@ -561,6 +624,17 @@ fn exec_case<F: Fmt>(id: &str, m: &MDef, own0: u32, w: usize, ops: &[&str], full
                     let fres = f.call(m.name, &s, &us, w, 0, &exit, &flog);
                     let fvals = f.contents();
                     f.remove();
+                    if res == "ok" {
+                        let s_now: Vec<Vec<u64>> = s.iter().map(|v| v.collect()).collect();
+                        let us_now: Vec<Vec<u64>> = us.iter().map(|v| v.collect().into_iter().map(|x| x as u64).collect()).collect();
+                        if let Some(d) = definition(m.name, w, &s_now, &us_now) {
+                            if d != after {
+                                let i = first_diff(&d, &after);
+                                cx.viol.push(format!("C06:c06-{}-differs-from-definition index={} stored={} definition={} len={}", m.name, i,
+                                    after.get(i).map_or("-".into(), |x| x.to_string()), d.get(i).map_or("-".into(), |x| x.to_string()), after.len()));
+                            }
+                        }
+                    }
                     let stale_key = if changed_version && !valid { "C19:c19" } else { "C06:c06" };
                     if res == "ok" && fres == "ok" {
                         if after.len() != fvals.len() {
@@ -641,14 +715,16 @@ fn parse_and_exec(id: &str, toks: &[&str], full: bool) -> (Vec<String>, Vec<Stri
     let own: u32 = get("own=").parse().unwrap();
     let w: usize = get("w=").parse().unwrap();
     let ops: Vec<&str> = toks.iter().filter(|t| !t.contains('=')).cloned().collect();
-    match get("f=") {
+    let (obs, viol, mut tags) = match get("f=") {
         "raw" => exec_case::<Raw>(id, m, own, w, &ops, full),
         "pco" => {
             assert!(Pco::NAME == "pco");
             exec_case::<Pco>(id, m, own, w, &ops, full)
         }
         f => panic!("format {f}"),
-    }
+    };
+    if get("large=") == "1" { tags.push("large".into()); }
+    (obs, viol, tags)
 }
 
 // ------------------------------------------------------------------------------- generator
@@ -787,11 +863,142 @@ fn gen_f7_round(rng: &mut Rng, m: &MDef, st: &mut GenState, ops: &mut Vec<String
     }
 }
 
-fn gen_case(rng: &mut Rng, case_no: u64, only: Option<&str>, c19: bool) -> String {
+/// Methods whose per-step model cost grows with the index in the extracted code (binary/unary
+/// conversions): their large cases stay just above one 4096-element chunk.
+const HEAVY_MODEL: &[&str] = &["sum", "max", "min", "change", "rolling_count", "cum_count_from", "ath_from", "atl_from",
+    "to", "range", "from_index", "transform", "transform2", "transform3", "transform4", "indirect", "lookback"];
+const LARGE_CAPS: [usize; 9] = [0, 4096, 4095, 4097, 4090, 4100, 1000, 2048, 5000];
+
+/// The "large" profile: sources of 4090-9000 elements so that cursors and range reads cross
+/// 4096-element chunk boundaries: window starts / group boundaries that jump by 2..20 positions
+/// across multiples of 4096, windows larger than a chunk, resume points and batch boundaries just
+/// before/after a multiple of 4096.  Sources are described by generated segments (`G` ops).
+fn gen_large_case(rng: &mut Rng, m: &MDef) -> String {
+    let f = if rng.chance(1, 2) { "pco" } else { "raw" };
+    let own = rng.range(1, 5) as u32;
+    let heavy = HEAVY_MODEL.contains(&m.name);
+    let w: usize = if m.name.ends_with("_of_others") { rng.range(1, 3) as usize }
+        else if m.name.ends_with("_from") { *rng.pick(&[0usize, 4090, 4097]) }
+        else if m.uses_w { *rng.pick(&[4000usize, 4096, 4097, 4100, 5000, 10, 1]) }
+        else { 0 };
+    let near = |rng: &mut Rng, c: usize| -> usize { (c as i64 + rng.range(0, 16) as i64 - 8).max(1) as usize };
+    let n2 = if heavy { rng.range(4100, 5200) as usize } else { match rng.below(3) { 0 => near(rng, 8192).max(4200), 1 => rng.range(4097, 9000) as usize, _ => rng.range(4097, 4700) as usize } };
+    let n1 = (if rng.chance(2, 3) { near(rng, 4096) } else { rng.range(2000, 4096) as usize }).min(n2);
+    let ns = m.n64 + m.nusz;
+    // compute_max/min keep equal values in the deque: a wide value range keeps the model's deque short
+    let small: u64 = if m.name == "max" || m.name == "min" { 100_000 } else { *rng.pick(&[3u64, 8, 50, 1000]) };
+    let mut st = GenState { src: vec![vec![]; ns], ver: vec![1; ns] };
+    let mut ops: Vec<String> = vec![];
+    // grow every source to `to` elements (group-structured shapes: `to` groups / keys)
+    let grow = |rng: &mut Rng, st: &mut GenState, ops: &mut Vec<String>, to: usize| {
+        let seg = |st: &mut GenState, ops: &mut Vec<String>, j: usize, n: usize, kind: &str, a: u64, b: u64, c: u64| {
+            if n == 0 { return; }
+            let from = st.src[j].len();
+            let prev = st.src[j].last().copied().unwrap_or(0);
+            let vals = gen_seg(kind, a, b, c, from, prev, n);
+            st.src[j].extend(vals);
+            ops.push(format!("G{j}:{n}:{kind}:{a}:{b}:{c}"));
+        };
+        let seed = rng.below(1 << 16);
+        match m.shape {
+            Shape::Groups => {
+                // j = 0 elements, 1 first_indexes, (2 indexes_count); `to` = number of groups
+                let have = st.src[1].len();
+                if to <= have { return; }
+                let n = to - have;
+                let cm: u64 = if m.nusz == 2 { 7 } else { 3 };
+                let base = st.src[0].len() as u64;
+                let counts = gen_seg("r", seed, cm, 0, have, 0, n);
+                let total: u64 = counts.iter().sum();
+                seg(st, ops, 0, total as usize, "r", seed + 1, small, 0);
+                seg(st, ops, 1, n, "f", seed, cm, base);
+                if m.nusz == 2 { seg(st, ops, 2, n, "r", seed, cm, 0); }
+            }
+            Shape::Keys => {
+                let have = st.src[1].len();
+                if to <= have { return; }
+                let nv = to.saturating_sub(st.src[0].len()) + rng.below(5) as usize;
+                seg(st, ops, 0, nv, "r", seed, small, 0);
+                let cap = st.src[0].len() as u64 - 1;
+                seg(st, ops, 1, to - have, "k", seed + 1, *rng.pick(&[2u64, 3, 4]), cap);
+            }
+            _ => for j in 0..ns {
+                let have = st.src[j].len();
+                let tj = if rng.chance(5, 6) { to } else { to + rng.below(9) as usize };
+                if tj <= have { continue; }
+                let n = tj - have;
+                let s = seed + j as u64;
+                match m.shape {
+                    Shape::GeqSecond if j == 0 => seg(st, ops, j, n, "r", s, small, small + 1),
+                    Shape::GeqSecond if j == 1 => seg(st, ops, j, n, "r", s, small, 1),
+                    Shape::NonDecr => seg(st, ops, j, n, "n", s, 4, 0),
+                    Shape::Starts if j >= m.n64 => {
+                        // small lags make the window start itself cross 4096 / 8192; stair steps that do not
+                        // divide 4096 make a jump straddle the chunk boundary
+                        let lag = *rng.pick(&[0u64, 5, 100, 500, 500, 1000, 4090, 4100, 5000]);
+                        let step = *rng.pick(&[3u64, 5, 6, 7, 9, 10, 11, 12, 13, 15, 17, 20, 2, 16]);
+                        seg(st, ops, j, n, "q", lag, step, 0)
+                    }
+                    _ => seg(st, ops, j, n, "r", s, small, 0),
+                }
+            },
+        }
+    };
+    // lengths are counted in the output index space (groups / keys for the F7 shapes)
+    let scale = |n: usize| match m.shape { Shape::Groups if m.nusz == 2 => (n / 3).max(1400), _ => n };
+    let cut = |st: &mut GenState, ops: &mut Vec<String>, to: usize| {
+        match m.shape {
+            Shape::Groups => {
+                if to < st.src[1].len() {
+                    let p = st.src[1][to] as usize;
+                    for j in (1..ns).rev() { st.src[j].truncate(to); ops.push(format!("T{j}:{to}")); }
+                    st.src[0].truncate(p); ops.push(format!("T0:{p}"));
+                }
+            }
+            Shape::Keys => if to < st.src[1].len() { st.src[1].truncate(to); ops.push(format!("T1:{to}")); },
+            _ => for j in 0..ns { if to < st.src[j].len() { st.src[j].truncate(to); ops.push(format!("T{j}:{to}")); } },
+        }
+    };
+    let out_len = |st: &GenState| match m.shape {
+        Shape::Groups => st.src[ns - 1].len().min(st.src[1].len()),
+        Shape::Keys => st.src[1].len(),
+        _ => st.src.iter().map(|v| v.len()).min().unwrap_or(0),
+    };
+    grow(rng, &mut st, &mut ops, scale(n1));
+    ops.push(format!("C0:{}", rng.pick(&LARGE_CAPS)));
+    let l1 = out_len(&st);
+    if rng.chance(1, 4) { ops.push("R".into()); }
+    grow(rng, &mut st, &mut ops, scale(n2));
+    ops.push(format!("C{}:{}", l1, rng.pick(&LARGE_CAPS)));
+    if rng.chance(1, 2) {
+        // truncate near a chunk boundary (or near the first resume point) and regrow
+        let l2 = out_len(&st);
+        let t = (match rng.below(3) { 0 => near(rng, 4096), 1 => near(rng, l1.max(9)), _ => near(rng, l2.saturating_sub(40).max(9)) }).min(l2);
+        cut(&mut st, &mut ops, t);
+        let t = t.min(out_len(&st));
+        let extra = rng.below(30) as usize;
+        grow(rng, &mut st, &mut ops, scale(n2) + extra);
+        if rng.chance(1, 6) { ops.push(format!("V0:{}", rng.range(2, 9))); }
+        ops.push(format!("C{}:{}", t, rng.pick(&LARGE_CAPS)));
+    }
+    if rng.chance(1, 3) { ops.push("R".into()); ops.push(format!("C{}:0", usize::MAX)); }
+    format!("m={} f={} own={} w={} large=1 {}", m.name, f, own, w, ops.join(" "))
+}
+
+fn gen_case(rng: &mut Rng, case_no: u64, only: Option<&str>, c19: bool, large_pct: u64) -> String {
     let m: &MDef = match only {
         Some(n) => mdef(n).expect("method"),
         None => &METHODS[(case_no % METHODS.len() as u64) as usize],
     };
+    if rng.chance(large_pct, 100) {
+        // half of the large cases go to the methods that read through a Cursor / in chunked ranges
+        const CURSOR_SET: &[&str] = &["rolling_sum", "rolling_max_fs", "rolling_min_fs", "sum", "max", "min", "lookback", "change",
+            "rolling_count", "sum_fi", "fsum_fi", "count_fi", "fcount_fi", "indirect"];
+        let lm = if only.is_none() && rng.chance(1, 2) { mdef(*rng.pick(CURSOR_SET)).unwrap() } else { m };
+        if lm.name != "first_per_index" && lm.name != "atl_ex" {
+            return gen_large_case(rng, lm);
+        }
+    }
     let f = if m.out == OutK::U64 && rng.chance(1, 2) { "pco" } else { "raw" };
     let f = if m.out == OutK::Usz { if rng.chance(1, 2) { "pco" } else { "raw" } } else { f };
     let own = rng.range(1, 5) as u32;
@@ -909,6 +1116,7 @@ pub fn run(args: &[String]) -> i32 {
     let full = a.rest.iter().any(|x| x == "--full");
     let c19 = a.rest.iter().any(|x| x == "--c19");
     let only: Option<String> = a.rest.iter().find_map(|x| x.strip_prefix("--method=").map(|s| s.to_string()));
+    let large_pct: u64 = a.rest.iter().find_map(|x| x.strip_prefix("--large=").map(|s| s.parse().unwrap())).unwrap_or(5);
     let emit = |id: &str, input: &str| {
         println!("I {id} {input}");
         let toks: Vec<&str> = input.split_whitespace().collect();
@@ -925,7 +1133,7 @@ pub fn run(args: &[String]) -> i32 {
     }
     let mut rng = Rng::new(a.seed);
     for n in 0..a.cases {
-        let input = gen_case(&mut rng, n, only.as_deref(), c19);
+        let input = gen_case(&mut rng, n, only.as_deref(), c19, large_pct);
         emit(&n.to_string(), &input);
     }
     0
